@@ -31,6 +31,11 @@ class Tokenizer:
     # are not taken for a unicode escape
     unicodesub = re.compile(r'\\\\|\\[0-9a-fA-F]{1,6}(?:\r\n|[\t\r\n\f\x20])?').sub
     cleanstring = re.compile(r'\\((\r\n)|[\n\r\f])').sub
+    # strings: unicode escapes and escaped newlines are resolved in a single pass
+    # so that a decoded character is never taken for part of an escaped newline
+    stringsub = re.compile(
+        r'\\\\|\\[0-9a-fA-F]{1,6}(?:\r\n|[\t\r\n\f\x20])?|\\(?:\r\n|[\n\r\f])'
+    ).sub
 
     def __init__(self, macros=None, productions=None, doComments=True):
         """
@@ -114,6 +119,9 @@ class Tokenizer:
             "used by unicodesub"
             if m.group(0) == '\\\\':
                 return m.group(0)
+            if m.group(0)[1] in '\n\r\f':
+                # \ followed by nl (so escaped) is removed from strings
+                return ''
             num = int(m.group(0)[1:], 16)
             if num <= sys.maxunicode:
                 return chr(num)
@@ -218,10 +226,11 @@ class Tokenizer:
                         ):
                             # may contain unicode escape, replace with normal
                             # char but do not _normalize (?)
-                            value = self.unicodesub(_repl, found)
                             if name in ('STRING', 'INVALID'):  # 'URI'?
-                                # remove \ followed by nl (so escaped) from string
-                                value = self.cleanstring('', value)
+                                # also removes \ followed by nl (so escaped)
+                                value = self.stringsub(_repl, found)
+                            else:
+                                value = self.unicodesub(_repl, found)
 
                         else:
                             if 'ATKEYWORD' == name:
